@@ -10,7 +10,7 @@ CHECKS = {
     # id: (engine, technique, level text, design_ref, level_note)
     "C01": ("E1+E4", E1 + "; every leaf of the other properties' spaces plus 64-bit / double extremes, deep chains to the parser's depth limit and direct calls of every public coercion helper, run in isolated worker processes in several build profiles (overflow checks on and off); a worker that aborts, overflows its stack or stops making progress is localised to the single input",
             "Totality is a universal claim over inputs x build profiles x entry points; the check closes a stated finite product (millions of executions per run) with panics caught and attributed to their source line, and process-fatal outcomes (abort, stack overflow, hang) observed from outside the process. No reference model is needed: any outcome other than Ok/Err is a violation.",
-            "5/C01", "inputs outside the alphabets (one representative per visible case split) are not covered; hang = no progress for 20 s; stack = 8 MiB"),
+            "5/C01", "inputs outside the alphabets (one representative per visible case split) are not covered; hang = no progress for 60 s; stack = 8 MiB"),
     "C02": ("E1", E1,
             "Closes the product literal-kind x data x position for the stated alphabets (incl. near-miss spellings of all 35 names, every key of length <= 2 over the operator character set, multi-key objects around every name) - the universal 'evaluates to itself, nothing inside is evaluated, nothing printed' is checked on every member, and each name is shown to dispatch.",
             "5/C02", "keys longer than 2 characters other than the listed near-miss transforms are not enumerated"),
